@@ -395,7 +395,7 @@ fn site_cases(run: &mut Run) {
     let internal = format!("{}/internal", lb.base());
     let url = lb.redirect_to(&internal);
     let mut ran = 0;
-    for kind in [SiteKind::Ctx, SiteKind::Tsa, SiteKind::Remote] {
+    for (kind, async_mode) in [(SiteKind::Ctx, false), (SiteKind::Ctx, true), (SiteKind::Tsa, false), (SiteKind::Remote, false)] {
         for redirects in [true, false] {
             let c = ChainCase {
                 allow: None,
@@ -405,14 +405,14 @@ fn site_cases(run: &mut Run) {
                 headers: vec![],
                 body: vec![],
                 script: vec![Reply::Resp { status: 302, locations: vec![internal.clone().into_bytes()] }, Reply::Resp { status: 200, locations: vec![] }],
-                async_mode: false,
+                async_mode,
             };
             let (_, hops) = plan(&c.uri, &c.script);
             let req = format!("C27 site kind={} {}", kind.tag(), c.line(&hops));
-            match run_site(&lb, kind, &None, redirects, &url) {
+            match run_site(&lb, kind, &None, redirects, &url, async_mode) {
                 Ok((class, hits)) => {
                     ran += 1;
-                    run.count(&format!("site_{}_{}_calls_{}", kind.tag(), class, hits.len()));
+                    run.count(&format!("site_{}_{}_{}_calls_{}", kind.tag(), if async_mode { "async" } else { "sync" }, class, hits.len()));
                     run.nontrivial(req.clone());
                     let idx = run.case(req, format!("{class} n={}", hits.len()));
                     let later_internal = hits.iter().skip(1).any(|h| hit_uri(&lb, h).and_then(|u| u.host().and_then(spec_internal_host)).is_some());
@@ -443,7 +443,7 @@ fn site_cases(run: &mut Run) {
         }
     }
     lb.shutdown();
-    run.obligations.insert("request-sites-driven-over-loopback".to_string(), ran == 6);
+    run.obligations.insert("request-sites-driven-over-loopback".to_string(), ran == 8);
 }
 
 pub fn run(run: &mut Run, rng: &mut Rng) {
